@@ -24,6 +24,9 @@ claimed = {
  "C15": dict(cat="proof", sec="7/C15",
    text="Deductive proof for every header map (any keys, any case, any multiplicity): after core.CopyHeaders no key of the upstream request is sensitive (canonical form in {Authorization, Cookie, X-Api-Key, X-Auth-Token, Proxy-Authorization}) or hop-by-hop (case-folded name in the eight-element table read from the code), every other client header is present with the identical value list, nothing else is added except the six Olla-maintained names (proved benign by a lemma), and existing Via / X-Forwarded-For values are all kept (upstream value starts with strings.Join of the client's values). Map-iteration invariant with a ghost visited set; isHopByHopHeader proved equal to its specification.",
    note="http.CanonicalHeaderKey and EqualFold are uninterpreted functions evaluated by govc on literals (ASCII); http.Header methods and strings.Join are trusted models. That both engines call CopyHeaders (and nothing else that writes headers) on every upstream request is part of the engine contracts (C01/C02), not of this check. One genuine defect (second Via / X-Forwarded-For line dropped) was found, replayed and fixed."),
+ "C16": dict(cat="proof", sec="7/C16",
+   text="Deductive proof, on all three return paths of common.BuildTargetURL and for all request URLs / endpoint URLs / prefixes, that the upstream URL is a fresh object with the endpoint's Scheme, Host and User, the client's RawQuery verbatim and no fragment; that without preserve_path and with an empty base path the path is the stripped request path, replaced by path.Clean of it whenever it has a plain or percent-encoded dot segment (containsDotDot / containsEncodedDotDot proved equal to their specifications over strings.Split / url.PathUnescape), hence free of dot segments; with preserve_path the path is path.Join(base, stripped path). util.StripPrefix is proved equal to its string specification; ResolveURLPath's trivial cases are proved.",
+   note="Weakest proof of the set: path.Join, path.Clean, strings.Split, url.PathUnescape, URL.ResolveReference are uninterpreted/trusted models, with two trusted axioms (path.Clean output has no dot segments; \"/\" has none). Containment under the base path with preserve_path is NOT proved: that branch has no dot-segment guard and relies on net/http.ServeMux cleaning request paths before the handler runs (assumption, listed). LoadFromConfig's use of ResolveURLPath and url.Parse/String round-trips are not covered."),
 }
 not_applicable = {}
 props = [json.loads(l) for l in open('/verif/properties.jsonl')]
